@@ -128,11 +128,11 @@ CLASSES["TempoContainer"] = {"class": "mingus.containers.note_container.NoteCont
 _EK = ["[real,real,None]", "[real,real,NoteContainer]", "[real,real,TempoContainer]"]
 
 
-def _seq_shapes():
+def _seq_shapes(thorough=False):
     import itertools
     out = [[]]
-    for n in (1, 2, 3):
-        out += [list(c) for c in itertools.product(_EK if n < 3 else _EK[1:], repeat=n)]
+    for n in ((1, 2, 3, 4) if thorough else (1, 2, 3)):
+        out += [list(c) for c in itertools.product(_EK if (n < 3 or thorough and n < 4) else _EK[1:], repeat=n)]
     return out
 
 
@@ -147,6 +147,7 @@ _c("play_Bar",
    callee_events={M + "play_NoteContainer": {"name": "play_NoteContainer", "assume": ["returns-true"]},
                   M + "stop_NoteContainer": {"name": "stop_NoteContainer", "assume": ["returns-true"]}},
    split=[{"field_types": {"bar.bar": "[" + ",".join(sh) + "]"}} for sh in _seq_shapes()], split_is_domain=True,
+   split_thorough=[{"field_types": {"bar.bar": "[" + ",".join(sh) + "]"}} for sh in _seq_shapes(True)],
    modifies=[], battery="seq_bar",
    notes="domain: bars of 0..3 entries (rest / container / container with a tempo; the 3-entry shapes without rests), ANY "
          "positive values and tempi; float-as-real")
